@@ -107,9 +107,20 @@ func schedSec(h uint64) int64 {
 	case h == 4:
 		return 120
 	default:
-		return 130 + int64(h-5)
+		// one second per block, with a gap of 100 s before each height whose printed (hex) width grows:
+		// the expiry-order worlds need evidence on the old side of the boundary to leave the time window
+		// while evidence on the new side stays inside it
+		t := 130 + int64(h-5)
+		for _, b := range widthBoundaries {
+			if h >= b {
+				t += 100
+			}
+		}
+		return t
 	}
 }
+
+var widthBoundaries = []uint64{16, 256}
 
 func whoOf(a common.Address) int {
 	for i, x := range addrs {
